@@ -306,7 +306,7 @@ macro_rules! bfv_impl {
                         });
                         (r.map(|x| format!("ok {}", x)), o)
                     }
-                    "sv_get" | "sv_iter" | "sv_rev_iter" | "sv_eq" | "sv_unaligned" => {
+                    "sv_get" | "sv_iter" | "sv_rev_iter" | "sv_eq" | "sv_unaligned" | "sv_atomic" => {
                         // the same contents through BitFieldVec<W, &[W]> over caller-supplied storage
                         // starting at an odd / even word offset of a larger buffer
                         let wsv: Vec<$W> = s.a.as_slice().to_vec();
@@ -321,6 +321,7 @@ macro_rules! bfv_impl {
                                 "sv_get" => format!("ok {}", view.get(num(1))),
                                 "sv_unaligned" => format!("ok {}", view.get_unaligned(num(1))),
                                 "sv_iter" => format!("ok {}", fmt_list(view.iter())),
+                                "sv_atomic" => format!("ok {}", sv_atomic_obs(view)),
                                 "sv_rev_iter" => {
                                     let mut it = (&view).into_rev_unchecked_iter();
                                     let mut out = vec![];
@@ -348,6 +349,10 @@ macro_rules! bfv_impl {
                                 if i < s.oa.v.len() && adm && padded { format!("ok {}", s.oa.v[i]) } else { "panic".into() }
                             }
                             "sv_iter" => format!("ok {}", fmt_list(s.oa.v.iter())),
+                            "sv_atomic" => format!(
+                                "ok {} {} {} {} {} {}",
+                                s.oa.v.len(), s.oa.bw, fmt_list(s.oa.v.iter()), s.oa.v.len(), s.oa.bw, fmt_list(s.oa.v.iter())
+                            ),
                             "sv_rev_iter" => format!("ok {}", fmt_list(s.oa.v.iter().rev())),
                             _ => format!("ok {}", b01(s.oa.bw == s.ob.bw && s.oa.v == s.ob.v)),
                         };
@@ -537,6 +542,15 @@ macro_rules! bfv_impl {
             let at: AV = v.into();
             at.into()
         }
+        /// the atomic view of a BORROWED slice view (what one gets from an eps-copy / mmap-loaded
+        /// vector) and back: "<len> <bit_width> <values read atomically> <values after converting back>"
+        fn sv_atomic_obs(view: BitFieldVec<$W, &[$W]>) -> String {
+            let av: AtomicBitFieldVec<$W, &[<$W as common_traits::IntoAtomic>::AtomicType]> = view.into();
+            let (n, bw) = (av.len(), av.bit_width());
+            let vals: Vec<$W> = (0..n).map(|i| av.get_atomic(i, Ordering::Relaxed)).collect();
+            let back: BitFieldVec<$W, &[$W]> = av.into();
+            format!("{} {} {} {} {} {}", n, bw, fmt_list(vals), back.len(), back.bit_width(), fmt_list(back.iter()))
+        }
     };
     (@atomic no, $W:ty) => {
         fn aset(a: &mut V, i: usize, v: $W) {
@@ -550,6 +564,9 @@ macro_rules! bfv_impl {
         }
         fn conv_atomic(v: V) -> V {
             v
+        }
+        fn sv_atomic_obs(view: BitFieldVec<$W, &[$W]>) -> String {
+            format!("{} {} {} {} {} {}", view.len(), view.bit_width(), fmt_list(view.iter()), view.len(), view.bit_width(), fmt_list(view.iter()))
         }
     };
 }
@@ -782,7 +799,7 @@ fn gen_op(ctx: &mut Ctx, s: &AnyS, w: usize, atomic: bool) -> String {
             33 if atomic => format!("aget {}", gen_index(ctx, len)),
             34 if atomic => "areset".into(),
             35 => format!("get_unaligned {}", gen_index(ctx, len)),
-            38 => ctx.rng.pick(&["sv_iter", "sv_rev_iter", "sv_eq"]).to_string(),
+            38 => ctx.rng.pick(&["sv_iter", "sv_rev_iter", "sv_eq", "sv_atomic"]).to_string(),
             39 => format!("{} {}", ctx.rng.pick(&["sv_get", "sv_unaligned"]), gen_index(ctx, len)),
             36 | 37 => {
                 let a = ctx.rng.below(5) as u128;
@@ -974,6 +991,7 @@ fn directed(ctx: &mut Ctx) {
                     "sv_iter".into(),
                     "sv_rev_iter".into(),
                     "sv_eq".into(),
+                    "sv_atomic".into(),
                     "clone".into(),
                     "eq".into(),
                     "apply 3 7".into(),
